@@ -26,7 +26,9 @@ Docs == <<
   [lines |-> <<F(4,0,7), C(0,8), F(3,0,1)>>, term |-> TRUE],
   [lines |-> <<>>, term |-> TRUE],
   [lines |-> <<F(3,0,1), F(2,1,0), C(1,2), F(1,0,3)>>, term |-> TRUE],
-  [lines |-> <<F(3,0,5), BL, F(3,0,4), H(1)>>, term |-> FALSE]
+  [lines |-> <<F(3,0,5), BL, F(3,0,4), H(1)>>, term |-> FALSE],
+  \* the same field (name AND value) twice, apart, with a third of that name: sorting brings them together
+  [lines |-> <<F(3,0,1), F(2,0,1), F(1,0,2), F(2,0,1), F(2,0,3)>>, term |-> TRUE]
 >>
 \* a package list of BigN paragraphs whose sort key (the value of the last field name) takes three values in rotation:
 \* many ties between DIFFERENT paragraphs, far from sorted - for the stability clause with a comparator that
